@@ -539,6 +539,35 @@ def leaf_matrix(R, seed, li, tier):
                 R.count('leaf_matrix_calls')
 
 
+def long_text(R, seed, tier):
+    """requests larger than the blocks a transport reads them in (WsgiApplication: 8 KiB), made of characters that take 1 to 4 bytes, shifted so that
+    characters fall on both sides of every kind of block boundary"""
+    ir = leaf_ir(0)
+    rng = core.rng_for(seed, PROP, 'longtext')
+    configs = [(k, v) for k in PROTOCOLS for v in VALIDATORS]
+    if tier == 'quick':
+        rng.shuffle(configs)
+        configs = configs[:4]
+    md = [m for m in ir['services'][0]['methods'] if m['name'] == 'leaf'][0]
+    mo = [m for m in ir['services'][0]['methods'] if m['name'] == 'obj'][0]
+    for kind, validator in configs:
+        try:
+            C = Ctx(ir, kind, validator, rng)
+        except Exception as e:
+            R.skip('leaf universe rejected at construction: %s' % type(e).__name__)
+            continue
+        for ch in ('\xe9', '\u4e84', '\U0001f642', 'a', '\xe9\u4e84a'):
+            for n in (9000, 20011) if tier == 'quick' else (4096, 9000, 16384, 20011, 70000):
+                for shift in range(4):
+                    v = 'x' * shift + ch * (n // len(ch))
+                    repro = {'scenario': 'long_text', 'seed': seed, 'kind': kind, 'validator': validator, 'char': ch, 'n': n, 'shift': shift}
+                    run_call(R, C, md, [v], [v[: n // 2]], 'wsgi', rng, repro)
+                    R.count('long_text_calls')
+            v = '\xe9' * 5000
+            run_call(R, C, mo, [{'__class__': 'T0', 'f': v, 'fl': [v, 'y' + v], 'fs': [v], 'fa': 'z' + v}], [{'__class__': 'T0', 'f': v, 'fl': [], 'fs': [], 'fa': v}], 'wsgi', rng,
+                     {'scenario': 'long_text', 'seed': seed, 'kind': kind, 'validator': validator, 'char': ch, 'n': 5000, 'shift': 'obj'})
+
+
 def multiref_scenario(R, seed):
     """SOAP section-5 multi-reference values as the toolkits that use that encoding write them: the arguments are accessors
     (href) to independent elements of the Body that carry the data; one target may be referenced twice, targets may refer
@@ -598,6 +627,8 @@ def run(spec, R):
         for li in range(spec['first'], min(len(LEAVES), spec['first'] + spec['count'])):
             leaf_matrix(R, spec['seed'], li, spec['tier'])
         return
+    if spec['shard'] == 'u1':
+        long_text(R, spec['seed'], spec['tier'])
     if spec['first'] == 0:
         multiref_scenario(R, spec['seed'])
         run_universe(R, spec['seed'], 9400, spec['tier'])
@@ -609,6 +640,11 @@ def run(spec, R):
 
 def replay(v, R):
     c = v['repro']
+    if c.get('scenario') == 'long_text':
+        long_text(R, c['seed'], 'thorough')
+        for x in R.violations[:10]:
+            print('replayed:', x.get('mech'), x.get('what')[:300])
+        return
     if c.get('scenario') == 'leaf':
         leaf_matrix(R, c['seed'], c['leaf'], 'thorough')
         for x in R.violations[:10]:
